@@ -125,6 +125,29 @@ Theorem C19_restart_refines : forall now h1 h2 fp,
   [] :: skipn (List.length h1) (replies hash verify empty_hash (init_state H now) (h1 ++ h2) fp).
 Proof. exact (restart_refines H hash verify empty_hash norm verify_hash verify_empty). Qed.
 
+(* The converse direction, as far as it is part of the property's text (a session is
+   good until it expires; the registered POST endpoint is served): a stored session
+   presented by cookie at or before its expiry instant (expired means strictly
+   after), to a registered SP with a selectable ACS, with no store fault, is answered
+   with the assertion built from that session; an IdP-initiated launch goes to the
+   first HTTP-POST endpoint of the registered metadata.  The monitor requires the
+   implementation to issue the same assertion wherever the model does (issue_okb). *)
+Theorem C19_valid_session_is_served : forall (s : sstate H) rq c fp id se md acs,
+  nonempty (cr_user c) = false -> cr_cookie c = Some id ->
+  alookup id (sessions s) = Some se -> clock s <= se_expire se -> fst (pop fp) = NoFault ->
+  alookup (rq_issuer rq) (registry s) = Some md -> acs_select md rq = Some acs ->
+  step hash verify empty_hash s (Sso rq c) fp =
+    (s, [{| r_status := 200; r_body := BAssertion (mk_assertion se md acs); r_cookie := None |}], snd (pop fp)).
+Proof. first [exact (sso_issues H hash verify empty_hash norm verify_hash verify_empty) | exact (sso_issues H hash verify empty_hash)]. Qed.
+
+Theorem C19_launch_goes_to_first_post_endpoint : forall (s : sstate H) n c fp sp id se md acs racs,
+  cr_cookie c = Some id -> alookup n (shortcuts s) = Some sp -> fst (pop fp) = NoFault ->
+  alookup id (sessions s) = Some se -> clock s <= se_expire se -> fst (pop (snd (pop fp))) = NoFault ->
+  alookup sp (registry s) = Some md -> md_acs md = acs :: racs ->
+  step hash verify empty_hash s (Launch n c) fp =
+    (s, [{| r_status := 200; r_body := BAssertion (mk_assertion se md acs); r_cookie := None |}], snd (pop (snd (pop fp)))).
+Proof. first [exact (launch_issues H hash verify empty_hash norm verify_hash verify_empty) | exact (launch_issues H hash verify empty_hash)]. Qed.
+
 End C19.
 
 (* the boolean monitor of the correspondence check (auth_okb, registered_okb,
@@ -141,8 +164,8 @@ Proof. intros. apply monitor_holds_of_model, init_inv. Qed.
 Theorem C19_assertion_reachable_and_refused :
   (has_assertion (last_reply (ex_setup ++ [Sso (mkrq "https://sp1/metadata" "") (Password "alice" "pw1")]) []) = true /\
    has_assertion (last_reply (ex_setup ++ [Login (Password "alice" "pw1"); Sso (mkrq "https://sp1/metadata" "https://sp1/acs") (Cookie "S0")]) []) = true /\
-   has_assertion (last_reply (ex_setup ++ [Login (Password "alice" "pw1"); Advance 3600; Launch "x" (Cookie "S0")]) []) = true) /\
-  (has_assertion (last_reply (ex_setup ++ [Login (Password "alice" "pw1"); Advance 3601; Launch "x" (Cookie "S0")]) []) = false /\
+   has_assertion (last_reply (ex_setup ++ [Login (Password "alice" "pw1"); Advance 3600000000000; Launch "x" (Cookie "S0")]) []) = true) /\
+  (has_assertion (last_reply (ex_setup ++ [Login (Password "alice" "pw1"); Advance 3600000000001; Launch "x" (Cookie "S0")]) []) = false /\
    has_assertion (last_reply (ex_setup ++ [Login (Password "alice" "pw1"); DelSession "S0"; Launch "x" (Cookie "S0")]) []) = false /\
    has_assertion (last_reply (ex_setup ++ [Sso (mkrq "https://sp1/metadata" "") (Password "alice" "pw2")]) []) = false /\
    has_assertion (last_reply (PutUser "bob" None ex_prof :: ex_setup ++ [Sso (mkrq "https://sp1/metadata" "") (Password "bob" "")]) []) = false /\
@@ -186,6 +209,8 @@ Print Assumptions C19_hash_never_disclosed.
 Print Assumptions C19_one_reply.
 Print Assumptions C19_faults_fail_closed.
 Print Assumptions C19_password_exact.
+Print Assumptions C19_valid_session_is_served.
+Print Assumptions C19_launch_goes_to_first_post_endpoint.
 Print Assumptions C19_registry_consistent.
 Print Assumptions C19_restart_refines.
 Print Assumptions C19_monitor_holds_of_model.
